@@ -29,16 +29,17 @@ type genSpecJSON struct {
 	HdrCRC bool            `json:"header_crc"`
 	Big    bool            `json:"big_endian"`
 	Desc   string          `json:"desc"`
+	Stale  bool            `json:"stale_output_fields,omitempty"`
 }
 
 func (g genSpec) json() genSpecJSON {
-	return genSpecJSON{g.Slot.FT, g.Slot.Common, g.Slot.Slot.Name, g.Slot.Mesg, g.Msgs, g.HdrCRC, g.Big, g.Desc}
+	return genSpecJSON{g.Slot.FT, g.Slot.Common, g.Slot.Slot.Name, g.Slot.Mesg, g.Msgs, g.HdrCRC, g.Big, g.Desc, g.Stale}
 }
 
 func specFromJSON(j genSpecJSON) (genSpec, bool) {
 	for _, gs := range genSlots() {
 		if gs.FT == j.FT && gs.Common == j.Common && gs.Slot.Name == j.Member && gs.Mesg == j.Mesg {
-			return genSpec{Slot: gs, Msgs: j.Msgs, HdrCRC: j.HdrCRC, Big: j.Big, Desc: j.Desc}, true
+			return genSpec{Slot: gs, Msgs: j.Msgs, HdrCRC: j.HdrCRC, Big: j.Big, Desc: j.Desc, Stale: j.Stale}, true
 		}
 	}
 	return genSpec{}, false
@@ -281,6 +282,12 @@ func runC05(w *vx.W) {
 				_ = err
 				w.Fam("after-a-failed-encode", 1)
 			}
+			if k%3 == 0 {
+				// the File's own output fields hold stale values (as they do after a Decode or an earlier Encode)
+				g.Stale = true
+				g.Desc += ", stale Header.CRC/DataSize/CRC"
+				w.Fam("stale-output-fields", 1)
+			}
 			out, msg, class := c05Check(g)
 			if class == "skip" {
 				w.Fam("skipped-no-value", 1)
@@ -316,6 +323,65 @@ func runC05(w *vx.W) {
 				if msg != "" {
 					w.Violation(class, fmt.Sprintf("%s file with every member populated (variant %d), big=%v hdrcrc=%v: %s", t.Name, variant, c&2 != 0, c&1 == 0, msg), map[string]interface{}{"file_type": t.Type, "variant": variant, "encoded_hex": vx.Hex(out)})
 				}
+			}
+		}
+	}
+	// the same File object encoded, modified so that its size changes, and encoded again (and a third time after
+	// shrinking it back): every output must be well-formed on its own
+	for _, t := range fileTypes {
+		for variant := 0; variant < 4; variant++ {
+			for c := 0; c < 4; c++ {
+				k++
+				if !w.Mine(k) {
+					continue
+				}
+				f, exp := multiFile(byte(t.Type), variant, c&1 == 0)
+				if f == nil {
+					continue
+				}
+				big := c&2 != 0
+				step := func(what string) bool {
+					out, msg, class := c05EncodeAndValidate(f, exp, big, c&1 == 0)
+					w.Eval(1)
+					w.Fam("re-encode-after-modification", 1)
+					w.Distinct(vx.HashB(out))
+					if msg != "" {
+						w.Violation("reencode/"+class, fmt.Sprintf("%s file with every member populated (variant %d), big=%v hdrcrc=%v, %s: %s", t.Name, variant, big, c&1 == 0, what, msg), map[string]interface{}{"file_type": t.Type, "variant": variant, "step": what, "encoded_hex": vx.Hex(out)})
+						return false
+					}
+					return true
+				}
+				if !step("first Encode") {
+					continue
+				}
+				// grow: duplicate the last message of the first non-empty slice member; set a file_id field
+				cv := container(f)
+				grown := -1
+				var before reflect.Value
+				for _, sl := range hosts()[byte(t.Type)] {
+					fv := cv.Elem().Field(sl.Index)
+					if sl.IsSlice && fv.Len() > 0 {
+						before = reflect.ValueOf(fv.Interface())
+						last := fv.Index(fv.Len() - 1)
+						cp := reflect.New(last.Elem().Type())
+						cp.Elem().Set(last.Elem())
+						fv.Set(reflect.Append(fv, cp))
+						exp[sl.Mesg] = append(exp[sl.Mesg], cp.Elem())
+						grown = sl.Index
+						break
+					}
+				}
+				f.FileId.Product = 4321
+				if !step("second Encode after growing the File") {
+					continue
+				}
+				if grown >= 0 {
+					fv := cv.Elem().Field(grown)
+					m := uint16(fit.VerifGlobalMesgNum(fv.Type().Elem().Elem()))
+					fv.Set(before)
+					exp[m] = exp[m][:len(exp[m])-1]
+				}
+				step("third Encode after shrinking it back")
 			}
 		}
 	}
